@@ -6,7 +6,7 @@ from collections import Counter
 from .. import coqenc as E
 from ..passes import Case, run_passes
 from ..runner import jval
-from ..valgen import Gen, copy_value
+from ..valgen import Gen, copy_value, spoil
 from ..condgen import CondGen
 from ..rulegen import RuleGen
 from ..specgen import normalise_cond, normalise_path, nested_leaves, path_leaves
@@ -92,11 +92,22 @@ def run(tier, seed, model_ok, spec_ok, replay=None):
                 pass
         s = v.Schema([rt.build() for rt in rts])
 
+        used = g.r.random() < 0.5
+        if used:
+            # a schema that has already judged documents serialises and compares as a new one does
+            for d in (doc, cast_doc(g, 2)):
+                E.run_outcome(lambda: s.validate(copy_value(d)).is_valid)
+            dist["used-before"] += 1
+
         def roundtrip():
             js = s.to_json_like()
+            keep = copy.deepcopy(js)
             txt = json.dumps(js)
+            spoil(js)                      # whatever the caller does with the result ...
+            if repr(s.to_json_like()) != repr(keep):      # ... the next serialisation is the same
+                raise AssertionError("second serialisation differs after the caller edited the first result")
             s2 = v.Schema.from_json_like(json.loads(txt))
-            return js, s2
+            return keep, s2
         out = E.run_outcome(roundtrip)
         dist["ok" if out[0] == "ok" else "exc:" + out[1]] += 1
         if out[0] == "exc":
